@@ -127,6 +127,8 @@ Definition sstep (st : srun) (op : list tok) : srun * list tok :=
         (mksrun (fst (shell_step enc_hash true (r_sh st) (r_now st) no_env [] (EConfig (ISetCluster c'))))
                 (r_now st) c' (r_seq st) (r_nseq st) (r_v6 st) (r_removed st), [TS "recluster"; TN 1])
       | _ => bad end
+    else if name =? "addbackend" then (st, [TS "addbackend"; TN 1])   (* the load balancer is an oracle *)
+    else if name =? "rmbackend" then (st, [TS "rmbackend"; TN 1])
     else if name =? "bounce" then
       (* DeactivateListener + ActivateListener: close_all_flows, then a fresh session over the same manager *)
       (mksrun (fst (shell_step enc_hash true (r_sh st) (r_now st) no_env [] ECloseAll))
